@@ -168,7 +168,9 @@ func c09Body(t *testing.T, s *sim.Scn, o *sim.Outcome) {
 		return
 	}
 	start := uint64(s.Cfg["start"])
-	f := w.AddNode(sim.NodeCfg{Name: "full", DAStartHeight: start})
+	// the pending-block limit is a sequencer setting; a follower configured with one (operators share
+	// configuration files) must scan exactly like one without
+	f := w.AddNode(sim.NodeCfg{Name: "full", DAStartHeight: start, MaxPending: uint64(s.Cfg["fmaxpending"])})
 	if err := f.StartNode(); err != nil {
 		o.Fail("C09/cannot-start", "", -1, err.Error(), "starts")
 		return
@@ -404,7 +406,7 @@ func c09Body(t *testing.T, s *sim.Scn, o *sim.Outcome) {
 }
 
 func c09Gen(r *rand.Rand, tier string) *sim.Scn {
-	s := &sim.Scn{Cfg: map[string]int64{"start": r.Int64N(21), "empty": r.Int64N(3)}}
+	s := &sim.Scn{Cfg: map[string]int64{"start": r.Int64N(21), "empty": r.Int64N(3), "fmaxpending": []int64{0, 0, 0, 1, 2, 5}[r.IntN(6)]}}
 	n := 1 + r.IntN(6)
 	for i := 0; i < n; i++ {
 		v := int64(1 + r.IntN(3))
